@@ -13,6 +13,8 @@ OpenSSL build than the one behind pyOpenSSL).  A case is a schedule:
               cd/sd k   : deliver the next k ciphertext bytes (0 = everything pending) to the proxy as one segment
               pc/ps n   : the child sends n bytes (up to 300 KB in one SendData) towards client/server; everything must have left
                           the proxy when the command has been processed
+              cfault/sfault : the peer writes n intact bytes and its stream then continues with a damaged record / garbage,
+                          all delivered in one segment (the intact bytes must still reach the child)
               cclose/sclose : peer sends close_notify;  cfin/sfin : TCP close;  ...+fin : both.  A FIN either takes effect at
                           once (half-close: the peer is done sending, the inner layer may still write to it -- many schedules
                           end that way, on either side) or after everything else
@@ -78,7 +80,11 @@ _op = st.one_of(
     st.tuples(st.sampled_from(["cd", "sd"]), _cut),
     st.tuples(st.sampled_from(["cd", "sd"]), _cut),
 )
-_close = st.sampled_from(["cclose", "sclose", "cfin", "sfin", "cclose+fin", "sclose+fin"])
+_close = st.sampled_from(["cclose", "sclose", "cfin", "sfin", "cclose+fin", "sclose+fin", "cclose", "sclose", "cfin", "sfin",
+                          "cclose+fin", "sclose+fin",
+                          # the peer's byte stream goes bad (a record that fails authentication, or plain garbage) right behind
+                          # intact records, all in one segment: what was sent intact before still belongs to the inner layer
+                          "cfault", "sfault"])
 
 
 @st.composite
@@ -86,7 +92,8 @@ def _case(draw):
     ops = draw(st.lists(_op, max_size=14))
     # third component: 1 = a FIN takes effect at once (the peer's pending bytes are delivered, then the TCP close: the peer
     # has finished sending but still reads -- half-close), 0 = the FIN arrives after everything else in the schedule
-    closes = draw(st.lists(st.tuples(_close, st.integers(0, 14), st.integers(0, 1)), max_size=2))
+    # (for a fault: the number of intact bytes the peer writes immediately before it; its parity selects the kind of damage)
+    closes = draw(st.lists(st.tuples(_close, st.integers(0, 14), st.one_of(st.integers(0, 1), st.integers(0, 1), _size)), max_size=2))
     for kind, pos, now in closes:
         ops.insert(min(pos, len(ops)), (kind, now))
     # often the schedule ends with a half-close: one peer finishes sending (FIN, with or without close_notify before it) and
@@ -221,7 +228,7 @@ def check_case(case, ctx):
             return
         if p.done:
             p.pump_read()
-            if p.error is not None:
+            if p.error is not None and not getattr(side, "faulted", False):  # (a faulted peer gets the proxy's alert)
                 problems.append(("peer-read-error:" + side.name, str(p.error)))
         out = p.drain()
         if out:
@@ -362,7 +369,7 @@ def check_case(case, ctx):
         elif op in ("cd", "sd"):
             deliver(side, arg)
         elif op in ("pc", "ps"):
-            if not (side.conn.state & ConnectionState.CAN_WRITE):
+            if not (side.conn.state & ConnectionState.CAN_WRITE) or getattr(side, "faulted", False):
                 skipped += 1
                 continue
             if side.close_sent is not None:
@@ -387,6 +394,37 @@ def check_case(case, ctx):
                 skipped += 1
                 continue
             kind = op[1:]
+            if kind == "fault":
+                if side.peer is None:
+                    skipped += 1
+                    continue
+                close_kinds.append(op)
+                if arg:
+                    data = pattern(side.dir, len(side.written), arg)
+                    side.written += data
+                    side.peer.write(data)
+                    out = side.peer.drain()
+                    side.wire += out
+                    side.sent_wire += out
+                if arg % 2 == 0:
+                    side.peer.write(b"this record gets damaged in transit")
+                    bad = bytearray(side.peer.drain())
+                    bad[-3] ^= 0x20  # inside the last record's protected payload: authentication fails
+                else:
+                    bad = bytearray(b"\x17\x03\x03\x00\x20" + bytes(range(32)))  # well-formed header, meaningless content
+                side.wire += bad
+                side.sent_wire += bad
+                side.close_sent = "fault"
+                side.faulted = True
+                side.closed_at = len(side.written)
+                deliver(side, 0)  # intact records and the damaged one arrive together
+                side.fin_delivered = True  # nothing more comes from this peer
+                if d.crashed is not None:
+                    break
+                if not invariant("after %s %r" % (op, arg)):
+                    return
+                continue
+            arg = arg % 2
             close_kinds.append(op)
             side.closed_at = len(side.written)
             if kind.startswith("close") and side.peer is not None:
@@ -449,7 +487,9 @@ def check_case(case, ctx):
             if bytes(getattr(side, "plain_in", b"")) != bytes(side.to_peer):
                 ctx.fail("plain-stream-differs:%s" % side.name, "plaintext side got %d of %d" % (
                     len(getattr(side, "plain_in", b"")), len(side.to_peer)))
-        if side.close_sent is not None:
+        if side.close_sent == "fault":
+            pass  # whether and how the inner layer is told about the broken stream is not part of the statement
+        elif side.close_sent is not None:
             n = rec.closed_count(side.conn)
             if n != 1:
                 ctx.fail("close-not-delivered:%s:%s" % (side.name, side.close_sent), "ConnectionClosed delivered %d times after %s" % (n, side.close_sent))
